@@ -8,7 +8,8 @@
     RealSemiring / ViterbiSemiring / BoolSemiring / LogSemiring is the same composition of
     primitives as in the Python source.  Proofs/SemiringCodeLaws.v shows that on the carriers
     (ereal embedded as [0,+inf], trop as [-inf,+inf]) these compositions coincide with the
-    carrier operations of Model/EReal.v and Model/Trop.v -- except ViterbiSemiring.star at 0 (F2).
+    carrier operations of Model/EReal.v and Model/Trop.v (ViterbiSemiring.star since the repair of F2;
+    the formula before the repair is kept as [viterbi_star_old]).
 
     LogSemiring is read through exp: a log-space value v is represented by e^v in [0,+inf]
     (log-space NaN by XNaN).  Under this reading  v + w |-> e^v * e^w,  v - w |-> e^v / e^w,
@@ -106,11 +107,13 @@ Definition viterbi_add (x y : xr) : xr := xmax x y.                        (* x.
 Definition viterbi_mul (x y : xr) : xr :=                                  (* x.add(y).nan_to_num_(nan=-inf, neginf=-inf, posinf=inf) *)
   nan_to_num (xadd x y) XNInf XPInf XNInf.
 Definition viterbi_sub (x y : xr) : xr := x.                               (* return x *)
-Definition viterbi_star (x : xr) : xr :=                                   (* where(x >= 0, inf, 0.) *)
-  if xge x (XFin 0) then XPInf else XFin 0.
-(** the repair recommended for F2: where(x > 0, inf, 0.) *)
-Definition viterbi_star_fixed (x : xr) : xr :=
+Definition viterbi_star (x : xr) : xr :=                                   (* where(x > 0, inf, 0.) *)
   if xgt x (XFin 0) then XPInf else XFin 0.
+(** the formula BEFORE the repair d2ec7af of /repo (finding F2): where(x >= 0, inf, 0.).
+    Not the model of the current code; kept so that the refutation of the old formula
+    ([viterbi_star_old_zero_refuted]) stays on record. *)
+Definition viterbi_star_old (x : xr) : xr :=
+  if xge x (XFin 0) then XPInf else XFin 0.
 
 (* ------------------------------------------------------------------------- *)
 (** * BoolSemiring *)
